@@ -29,6 +29,9 @@ class _Loop06(LoopCheck):
     props = {"C06"}
     flows = ("plain",)
 
+    thorough_schedules = ["fixed1", "fixed2", "fixed4", "adaptive_half", "adaptive_cap2", "adaptive_free"]
+    adaptive_N3 = ("adaptive_half", "adaptive_cap2", "adaptive_free")
+
     def schedules(self, tier):
         return super().schedules(tier) + ["fixed4_cap2"]
 
@@ -83,12 +86,12 @@ class C06(Check):
     ]
     bounds = {
         "quick": {"step": "N<=3, beta_prev in {0,1/2}, tol 1/4", "fixed_n_steps_max": 12},
-        "thorough": {"step": "N<=4, beta_prev in {0,1/4,1/2}, tol in {1/4,1/8}", "fixed_n_steps_max": 64},
+        "thorough": {"step": "N<=4, beta_prev in {0,1/4,1/2}, tol in {1/4,1/8}", "fixed_n_steps_max": 52},
     }
 
     def configs(self, tier):
         out = [c for c in beta_step.configs(tier) if c["kind"] != "setter"]
-        K = 12 if tier == "quick" else 64
+        K = 12 if tier == "quick" else 52
         # one configuration per block of n values keeps each query small
         blocks = [(a, a + 3) for a in range(1, K, 4)]
         for lo, hi in blocks:
@@ -205,6 +208,11 @@ class C06(Check):
 
     def finding_of(self, cex):
         if cex["cfg"]["kind"] == "loop":
+            info = cex.get("_info") or {}
+            betas = info.get("betas") or []
+            stuck = any(b2 == b1 for b1, b2 in zip(betas, betas[1:]))
+            if cex["cfg"].get("schedule") == "adaptive_free" and stuck and "ladder" in str(cex.get("label")):
+                return "C06-D4"
             return None
         if cex["cfg"]["kind"] == "fixed":
             info = cex.get("_info") or {}
